@@ -55,21 +55,19 @@ theorem stepLine_safe (safeKeys : List Bytes) (st : State) (line : Bytes) :
     ∃ add : List (Bytes × Bytes), (stepLine safeKeys true st line).vals = st.vals ++ add ∧
       ∀ kv ∈ add, Documented safeKeys kv.1 := by
   unfold stepLine
-  cases hs : splitKV line [] with
-  | none => exact ⟨rfl, [], by simp, by simp⟩
-  | some kv =>
-    obtain ⟨key, val⟩ := kv
-    simp only
-    cases hd : decide safeKeys true key with
-    | skip => exact ⟨rfl, [], by simp, by simp⟩
-    | ignore => exact ⟨rfl, [], by simp, by simp⟩
-    | store =>
-      refine ⟨rfl, [(key, val)], rfl, ?_⟩
-      intro kv hkv; simp at hkv; subst hkv; exact decide_safe_store hd
-    | storeExt n => exact absurd hd decide_safe_no_ext
-    | storeRemote n =>
-      refine ⟨rfl, [(key, val)], rfl, ?_⟩
-      intro kv hkv; simp at hkv; subst hkv; exact decide_safe_storeRemote hd
+  generalize kvOf line = kv0
+  obtain ⟨key, val⟩ := kv0
+  simp only
+  cases hd : decide safeKeys true key with
+  | skip => exact ⟨rfl, [], by simp, by simp⟩
+  | ignore => exact ⟨rfl, [], by simp, by simp⟩
+  | store =>
+    refine ⟨rfl, [(key, val)], rfl, ?_⟩
+    intro kv hkv; simp at hkv; subst hkv; exact decide_safe_store hd
+  | storeExt n => exact absurd hd decide_safe_no_ext
+  | storeRemote n =>
+    refine ⟨rfl, [(key, val)], rfl, ?_⟩
+    intro kv hkv; simp at hkv; subst hkv; exact decide_safe_storeRemote hd
 
 theorem foldl_safe (safeKeys : List Bytes) (lines : List Bytes) (st : State) :
     (lines.foldl (stepLine safeKeys true) st).exts = st.exts ∧
@@ -92,17 +90,15 @@ theorem stepLine_vals_append (safeKeys : List Bytes) (os : Bool) (st : State) (l
     ∃ add, (stepLine safeKeys os st line).vals = st.vals ++ add ∧
       ∀ st', (stepLine safeKeys os st' line).vals = st'.vals ++ add := by
   unfold stepLine
-  cases splitKV line [] with
-  | none => exact ⟨[], by simp, by simp⟩
-  | some kv =>
-    obtain ⟨key, val⟩ := kv
-    simp only
-    cases decide safeKeys os key with
-    | skip => exact ⟨[], by simp, by simp⟩
-    | ignore => exact ⟨[], by simp, by simp⟩
-    | store => exact ⟨[(key, val)], rfl, fun _ => rfl⟩
-    | storeExt n => exact ⟨[(key, val)], rfl, fun _ => rfl⟩
-    | storeRemote n => exact ⟨[(key, val)], rfl, fun _ => rfl⟩
+  generalize kvOf line = kv0
+  obtain ⟨key, val⟩ := kv0
+  simp only
+  cases decide safeKeys os key with
+  | skip => exact ⟨[], by simp, by simp⟩
+  | ignore => exact ⟨[], by simp, by simp⟩
+  | store => exact ⟨[(key, val)], rfl, fun _ => rfl⟩
+  | storeExt n => exact ⟨[(key, val)], rfl, fun _ => rfl⟩
+  | storeRemote n => exact ⟨[(key, val)], rfl, fun _ => rfl⟩
 
 theorem readSource_vals_append (safeKeys : List Bytes) (src : Source) (st : State) :
     ∃ add, (readSource safeKeys st src).vals = st.vals ++ add ∧
